@@ -242,8 +242,18 @@ def history_array_rules(prog, ctx, rule):
                                                    render(x.call_args()[0]).startswith("(*key_files)[") for x in l.walk())]
         okc, cutc = hcfg.all_paths_cut(cb, lambda lit, b, i: lit is not None and lit.kind == "lt" and "size" in lit.atom and
                                        lit.lhs.const_value() == 0 and not lit.pol, start=tb)
+        # shared exit (goto fail): every way from the collection to the free passes the element loop or the emptiness test
+        all_loops = [l for l in h.walk() if l.k in ("ForStmt", "WhileStmt") and l.child("cond") is not None and any(
+            x.k == "CallExpr" and x.j.get("callee") == "econf_freeFile" and render(x.call_args()[0]).startswith("(*key_files)[") for x in l.walk())]
+        lblocks = set(hcfg.block_of(l.child("cond")) for l in all_loops)
+        succ_h = {(b, i): s2 for (b, i, s2) in hcfg.edges()}
+        okp, cutp = hcfg.all_paths_cut(cb, lambda lit, b, i: succ_h.get((b, i)) in lblocks or b in lblocks or (
+            lit is not None and lit.kind == "lt" and "size" in lit.atom and lit.lhs.const_value() == 0 and not lit.pol), start=tb)
         if elem_loops:
             ctx.ok(rule, "history array released together with its elements", c.where, "dominated by a loop calling econf_freeFile((*key_files)[k])")
+        elif all_loops and okp and cutp:
+            ctx.ok(rule, "history array released together with its elements", c.where,
+                   "every path from the collection to this free passes the loop calling econf_freeFile((*key_files)[k]) or the test `*size <= 0`")
         elif okc and cutc:
             ctx.ok(rule, "history array released when empty", c.where, "behind `*size <= 0`: no element to release")
         else:
@@ -271,22 +281,24 @@ def history_array_rules(prog, ctx, rule):
     m = prog.fn("merge_econf_files")
     ctx.touch(m)
     mcfg = m.cfg
-    wl = [n for n in m.walk() if n.k == "WhileStmt" and not any(a.k == "WhileStmt" for a in n.ancestors())]
-    if len(wl) != 1:
+    from rules.C01 import _history_walk
+    walks = _history_walk(m)
+    if len(walks) != 1:
         raise Inconclusive("merge_econf_files: outer loop not recognised")
-    wl = wl[0]
+    wl, _K, CUR, _CV, _kind = walks[0]
+    cur_flag = ("(%s)->on_merge_delete" % CUR) if CUR.startswith("*") else ("%s->on_merge_delete" % CUR)
     whb = mcfg.loop_header(wl)
     rel = [c for c in m.calls(("econf_freeFile", "econf_free")) if c.within(wl)]
-    rel_cur = [c for c in rel if render(c.call_args()[0]) == "*key_files"]
+    rel_cur = [c for c in rel if render(c.call_args()[0]) == CUR]
     if not rel_cur:
-        ctx.fail(rule, "merge loop releases each history element", wl.where, "no release of *key_files in the loop", key="merge-element")
+        ctx.fail(rule, "merge loop releases each history element", wl.where, "no release of %s in the loop" % CUR, key="merge-element")
     else:
         c = rel_cur[0]
         # guarded by the element's own flag; the guard block is on every way round
         gb = None
         for (b, i, s) in mcfg.edges():
             lit = mcfg.edge_lit(b, i)
-            if lit is not None and lit.atom == "(*key_files)->on_merge_delete" and lit.pol and mcfg.blocks[b].succs[i] == mcfg.block_of(c):
+            if lit is not None and lit.atom == cur_flag and lit.pol and mcfg.blocks[b].succs[i] == mcfg.block_of(c):
                 gb = b
         if gb is None:
             gb = mcfg.block_of(c)
@@ -297,10 +309,10 @@ def history_array_rules(prog, ctx, rule):
             ctx.fail(rule, "merge loop releases each history element", c.where, "a way round the loop skips the release of the current element",
                      key="merge-element")
         else:
-            ctx.ok(rule, "merge loop releases each history element", c.where, "every way round the loop passes `if ((*key_files)->on_merge_delete) econf_free(*key_files)`")
+            ctx.ok(rule, "merge loop releases each history element", c.where, "every way round the loop passes `if (%s) econf_free(%s)`" % (cur_flag, CUR))
     mc = m.calls("econf_mergeFiles")
     if len(mc) == 1:
-        tmp_rel = [c for c in rel if render(c.call_args()[0]) not in ("*key_files",)]
+        tmp_rel = [c for c in rel if render(c.call_args()[0]) not in (CUR,)]
         if tmp_rel and mcfg.node_dominates(mc[0], tmp_rel[0]):
             ctx.ok(rule, "merge loop releases the previous intermediate result", tmp_rel[0].where,
                    "%s released after the merge that replaced it" % render(tmp_rel[0].call_args()[0]))
